@@ -126,3 +126,123 @@ theorem conj_law (μ : Masks ι) (en : Energies μ K) :
   · rw [h.2.2, coeff_conjS]
 
 end PV.Laws
+
+namespace PV.Laws
+open PV PV.Model MvPowerSeries Finset Filtered Blocks Part CoeffBlocks
+
+variable {σ : Type*}
+
+/-- Laws induced by a homomorphism of the COEFFICIENT algebras (C14 / C15): a star ring homomorphism `θ : M → M'` that respects the kept / eliminated split carries
+    every order of the outputs for `H` to the outputs for the coefficient-wise image of `H`.  Instances: conjugation by a unitary (change of basis inside the blocks, rotation
+    inside degenerate levels), permutation of basis states (`perm_law`), entry-wise conjugation (`conj_law`), projection of a direct sum onto a summand. -/
+theorem coeff_hom_law {M M' : Type*} [Ring M] [StarRing M] [Algebra ℚ M] [StarModule ℚ M] [CoeffBlocks M]
+    [Ring M'] [StarRing M'] [Algebra ℚ M'] [StarModule ℚ M'] [CoeffBlocks M']
+    (θ : M →+* M') (hstar : ∀ a : M, θ (star a) = star (θ a))
+    (hQ : ∀ a : M, θ (Q kc a + Q kn a) = Q kc (θ a) + Q kn (θ a))
+    (c0 : CoeffUnperturbed M) (c0' : CoeffUnperturbed M')
+    (gap' : ∀ x : M', Q kc x + Q kn x = 0 → c0'.H0 * x - x * c0'.H0 = 0 → x = 0)
+    (e : MainEqs (MvPowerSeries σ M) (lift c0)) (e' : MainEqs (MvPowerSeries σ M') (lift c0'))
+    (hH : e'.H = MvPowerSeries.map θ e.H) (n : σ →₀ ℕ) :
+    coeff n e'.U = θ (coeff n e.U) ∧ coeff n e'.H_tilde = θ (coeff n e.H_tilde) ∧ coeff n e'.Ud = θ (coeff n e.Ud) := by
+  classical
+  have hg : Gapped (lift (σ := σ) c0').H0 := by
+    intro k v hv hs hc
+    exact gapped_lift (σ := σ) c0'.toCoeffUnperturbedNH gap' k v hv hs hc
+  have h := natural (MvPowerSeries.map (σ := σ) θ)
+    (by
+      intro a; ext m
+      rw [coeff_map, coeff_star, coeff_star, coeff_map, hstar])
+    (by
+      intro a; ext m
+      show coeff m (MvPowerSeries.map θ (P kc a + P kn a)) = coeff m (P kc (MvPowerSeries.map θ a) + P kn (MvPowerSeries.map θ a))
+      have h1 : coeff m (P kc a + P kn a) = Q kc (coeff m a) + Q kn (coeff m a) := by rw [map_add, coeff_P, coeff_P]
+      have h2 : coeff m (P kc (MvPowerSeries.map θ a) + P kn (MvPowerSeries.map θ a)) = Q kc (θ (coeff m a)) + Q kn (θ (coeff m a)) := by
+        rw [map_add, coeff_P, coeff_P, coeff_map]
+      rw [coeff_map, h1, h2, hQ])
+    (by
+      intro a ha m hm
+      rw [coeff_map, ha m hm, map_zero])
+    hg e e' hH
+  refine ⟨?_, ?_, ?_⟩
+  · rw [h.1, coeff_map]
+  · rw [h.2.1, coeff_map]
+  · rw [h.2.2, coeff_map]
+
+end PV.Laws
+
+namespace PV.Laws
+open PV PV.Model PV.MatrixModel MvPowerSeries Finset Filtered Blocks Part CoeffBlocks Matrix
+
+variable {σ : Type*} {ι ι' : Type*} [Fintype ι] [DecidableEq ι] [Fintype ι'] [DecidableEq ι']
+variable {K : Type*} [Field K] [StarRing K] [Algebra ℚ K] [StarModule ℚ K]
+
+/-- relabelling the basis states along a bijection, as a ring homomorphism of matrices -/
+noncomputable def permM (π : ι ≃ ι') : Matrix ι ι K →+* Matrix ι' ι' K where
+  toFun A := A.submatrix π.symm π.symm
+  map_one' := Matrix.submatrix_one_equiv π.symm
+  map_mul' A B := (Matrix.submatrix_mul_equiv A B π.symm π.symm π.symm).symm
+  map_zero' := by ext i j; rfl
+  map_add' A B := by ext i j; rfl
+
+theorem permM_apply (π : ι ≃ ι') (A : Matrix ι ι K) (i j : ι') : permM π A i j = A (π.symm i) (π.symm j) := rfl
+
+/-- C15 (permutation of basis states / relabelling of blocks), matrix model: if the entry classification and the Hamiltonian are transported along a bijection `π` of the
+    basis states, so are `H_tilde`, `U`, `U†` at every order.  The energies of the second problem are only required to satisfy the gap condition of its own masks. -/
+theorem perm_law (π : ι ≃ ι') (μ : Masks ι) (μ' : Masks ι') (hcls : ∀ i j : ι', μ'.cls i j = μ.cls (π.symm i) (π.symm j))
+    (en : Energies μ K) (en' : Energies μ' K) :
+    letI := coeffBlocks (K := K) μ
+    letI := coeffBlocks (K := K) μ'
+    ∀ (e : MainEqs (MvPowerSeries σ (Matrix ι ι K)) (lift (coeffUnperturbed en)))
+      (e' : MainEqs (MvPowerSeries σ (Matrix ι' ι' K)) (lift (coeffUnperturbed en'))),
+      e'.H = MvPowerSeries.map (permM π) e.H →
+      ∀ n : σ →₀ ℕ, coeff n e'.U = permM π (coeff n e.U) ∧ coeff n e'.H_tilde = permM π (coeff n e.H_tilde) ∧ coeff n e'.Ud = permM π (coeff n e.Ud) := by
+  letI i1 := coeffBlocks (K := K) μ
+  letI i2 := coeffBlocks (K := K) μ'
+  intro e e' hH n
+  exact coeff_hom_law (M := Matrix ι ι K) (M' := Matrix ι' ι' K) (permM π)
+    (by
+      intro a; ext i j
+      rw [permM_apply, Matrix.star_apply, Matrix.star_apply, permM_apply])
+    (by
+      intro a; ext i j
+      show permM π (maskMap μ kc a + maskMap μ kn a) i j = (maskMap μ' kc (permM π a) + maskMap μ' kn (permM π a)) i j
+      rw [permM_apply, Matrix.add_apply, Matrix.add_apply, maskMap_apply, maskMap_apply, maskMap_apply, maskMap_apply, permM_apply, hcls])
+    (coeffUnperturbed en) (coeffUnperturbed en')
+    (fun x h1 h2 => coeff_gap en'.toEnergiesNH x h1 h2)
+    e e' hH n
+
+/-- conjugation `A ↦ W† A W` by a unitary matrix, as a ring homomorphism -/
+noncomputable def unitM (W : Matrix ι ι K) (h1 : star W * W = 1) (h2 : W * star W = 1) : Matrix ι ι K →+* Matrix ι ι K where
+  toFun A := star W * A * W
+  map_one' := by rw [Matrix.mul_one, h1]
+  map_mul' A B := by
+    have : star W * A * W * (star W * B * W) = star W * A * (W * star W) * B * W := by simp only [Matrix.mul_assoc]
+    rw [this, h2, Matrix.mul_one]
+    simp only [Matrix.mul_assoc]
+  map_zero' := by simp
+  map_add' A B := by rw [Matrix.mul_add, Matrix.add_mul]
+
+/-- C15 / C14 (change of basis by a unitary that respects the kept / eliminated pattern - a rotation inside degenerate levels, a unitary inside the blocks when the
+    blocks are kept whole): the outputs for `W† H W` are `W† (outputs for H) W`.  The compatibility of `W` with the masks is the hypothesis `hmask`. -/
+theorem unitary_law (W : Matrix ι ι K) (h1 : star W * W = 1) (h2 : W * star W = 1) (μ : Masks ι)
+    (hmask : ∀ A : Matrix ι ι K, star W * (maskMap μ kc A + maskMap μ kn A) * W = maskMap μ kc (star W * A * W) + maskMap μ kn (star W * A * W))
+    (en : Energies μ K) :
+    letI := coeffBlocks (K := K) μ
+    ∀ (e e' : MainEqs (MvPowerSeries σ (Matrix ι ι K)) (lift (coeffUnperturbed en))),
+      e'.H = MvPowerSeries.map (unitM W h1 h2) e.H →
+      ∀ n : σ →₀ ℕ, coeff n e'.U = star W * coeff n e.U * W ∧ coeff n e'.H_tilde = star W * coeff n e.H_tilde * W ∧ coeff n e'.Ud = star W * coeff n e.Ud * W := by
+  letI := coeffBlocks (K := K) μ
+  intro e e' hH n
+  exact coeff_hom_law (M := Matrix ι ι K) (M' := Matrix ι ι K) (unitM W h1 h2)
+    (by
+      intro a
+      show star W * star a * W = star (star W * a * W)
+      rw [star_mul, star_mul, star_star, Matrix.mul_assoc])
+    (by
+      intro a
+      exact hmask a)
+    (coeffUnperturbed en) (coeffUnperturbed en)
+    (fun x hx1 hx2 => coeff_gap en.toEnergiesNH x hx1 hx2)
+    e e' hH n
+
+end PV.Laws
